@@ -20,7 +20,8 @@ ATOMS = ['x', 'y', 'a', 'n', '1', '2', '0', '+', '-', '=', '<', '>', '/', '(', '
          'x^{n+1}', '\\frac{a}{b}', '\\sqrt{x}', '\\sqrt[3]{x}', '{a+b}', '\\mathrm{hopQ}', '\\mathbb{R}',
          '\\zzunkmath', '\\zzunkmath{x}', '\\left(', '\\right)', '\\ldots', '\\!', '\\label{hlabQ}', '\\nonumber ',
          ' ', '  ', '\n', '[', ']', '\\{', '\\}', '\\%', "'", '*', 'f(x)', '\\hat{x}', '\\vec v', '\\ref{hrQ}',
-         '\\dots', '\\binom{n}{k}', '\\lim_{n\\to\\infty}', '\\mathcal{O}(n)', ':', ';', ',', '.', '\\#']
+         '\\dots', '\\binom{n}{k}', '\\lim_{n\\to\\infty}', '\\mathcal{O}(n)', ':', ';', ',', '.', '\\#',
+         '\\begin{matrix} a \\end{matrix}', '\\begin{zzmenv}b\\end{zzmenv}', '\\begin{smallmatrix}c\\end{smallmatrix}']
 PUNCT = ['.', ',', ';', ':']
 
 
